@@ -85,6 +85,9 @@ def search(ctx, exes, n):
     worst, nfail, nskip, src = run_predicate(ctx, res)
     ctx.extra['search'] = {'predicate_evaluations': len(res) - nskip, 'failures': nfail, 'worst_relative_imbalance': worst}
 
+def replay(ctx, path):
+    C13.replay_case(ctx, path)
+
 def run(ctx):
     ctx.build_repo()
     ctx.coq_props(PROPS)
@@ -121,7 +124,7 @@ def run(ctx):
                         'Mobility* elements only on coordinates with qdot = u (their documented domain); generators and theorems carry that restriction',
                         'TwoPointLinearSpring theorem assumes the stations do not coincide; MobilityLinearStop theorem excludes the two switching points q = qLow, q = qHigh',
                         'the model is hand-written; its agreement with the compiled code is checked on generated cases only',
-                        'LinearBushing is in the correspondence and in the finite-difference predicate but has no C12 theorem yet']
+                        'LinearBushing: only the algebraic power identity (power = f.qdot in the inferred coordinates) is a theorem; that qdot is the rate of the inferred q is covered by the finite-difference predicate and correspondence only']
     if exes and (ctx.broken or ctx.tier == 'thorough'):
         search(ctx, exes, 1300 if ctx.tier == 'quick' else 13000)
     ctx.finish()
